@@ -175,6 +175,45 @@ func checkC02(r *Run) {
 		r.callersExactly("C02-R5", "pos.burnStakedTokens", r.edgesTo(f), []string{"(x/pos/keeper.Keeper).slash", "(x/pos/keeper.Keeper).ForceValidatorUnstake"})
 	}
 
+	// accounts are persisted only by the vetted writers, and a module account is created only when no account exists at its address
+	if f := r.fn(bankK + "SetAccount"); f != nil {
+		r.callersExactly("C02-R2", "Keeper.SetAccount", r.edgesTo(f), []string{bankK + "SetCoins", bankK + "SetModuleAccount", "x/auth.InitGenesis", "(x/gov/keeper.Keeper).InitGenesis"})
+	}
+	if f := r.fn(bankK + "SetModuleAccount"); f != nil {
+		r.callersExactly("C02-R2", "Keeper.SetModuleAccount", r.edgesTo(f), []string{bankK + "GetModuleAccountAndPermissions", "x/pos.InitGenesis", "(x/gov/keeper.Keeper).InitGenesis"})
+	}
+	if f := r.fn(bankK + "GetModuleAccountAndPermissions"); f != nil {
+		if c := r.oneCall("C02-R2", "GetModuleAccountAndPermissions", f, bankK+"SetModuleAccount"); c != nil {
+			r.requireAtoms("C02-R2", "GetModuleAccountAndPermissions/create", c, P.Guards(c, 0), []req{
+				{"only-when-absent", `^isnil\(` + q(bankK+"GetAccount(param:k, param:ctx, "+bankK+"GetModuleAddressAndPermissions(param:k, param:moduleName)#0)") + `\)$`},
+			})
+			got := argTerm(P.callTerm(c), 2).String()
+			r.Check(strings.Contains(got, "x/auth/types.NewEmptyModuleAccount(param:moduleName"), "C02-R2", "GetModuleAccountAndPermissions/creates-empty", P.InstrPos(c), got, "creates "+got+" ; required a new empty module account")
+		}
+	}
+	checkStoreKeyWriters(r, "C02-R2", "x/auth/types", "AddressStoreKeyPrefix", []string{bankK + "SetAccount", bankK + "RemoveAccount"})
+	if f := r.fn(bankK + "RemoveAccount"); f != nil {
+		r.callersExactly("C02-R2", "Keeper.RemoveAccount", r.edgesTo(f), []string{})
+	}
+
+	// ------------------------------------------------------------------ R7
+	r.Rule("C02-R7", "a slash burns from the pool exactly what it removes from the validator record (same SSA term for removeValidatorTokens and burnStakedTokens); a forced unstake burns exactly the record's remaining stake", 2)
+	if f := r.fn("(x/pos/keeper.Keeper).slash"); f != nil {
+		rm, bn := CallsIn(f, "(x/pos/keeper.Keeper).removeValidatorTokens"), CallsIn(f, "(x/pos/keeper.Keeper).burnStakedTokens")
+		if len(rm) == 1 && len(bn) == 1 {
+			a, b := argTerm(P.callTerm(rm[0]), 3).String(), argTerm(P.callTerm(bn[0]), 2).String()
+			r.Check(a == b, "C02-R7", "slash/removed≡burned", P.InstrPos(bn[0]), "same term", "removeValidatorTokens takes "+a+" but burnStakedTokens burns "+b+": supply and pool change by an amount other than the stake removed")
+		} else {
+			r.Viol("C02-R7", "slash/removed≡burned", P.Pos(f.Pos()), "slash no longer has exactly one stake reduction and one pool burn")
+		}
+	}
+	if f := r.fn("(x/pos/keeper.Keeper).ForceValidatorUnstake"); f != nil {
+		if c := r.oneCall("C02-R7", "ForceValidatorUnstake", f, "(x/pos/keeper.Keeper).burnStakedTokens"); c != nil {
+			got := argTerm(P.callTerm(c), 2).String()
+			r.Check(got == "param:validator.StakedTokens", "C02-R7", "ForceValidatorUnstake/burns-recorded-stake", P.InstrPos(c), got, "burns "+got)
+		}
+	}
+
 	// ------------------------------------------------------------------ R6
 	r.Rule("C02-R6", "an award mints exactly what it forwards (= C10-R2): in pos.mint the amount given to MintCoins and the amount sent on from the staked pool are the same term, same module", 2)
 	checkMintPair(r, "C02-R6")
